@@ -33,6 +33,8 @@ struct PJ : decltype(au::Kelvins{} * au::mag<2>()) { static constexpr auto origi
 // the Celsius origin (273.15 K) written in other units than Celsius writes it in (tie-break arm of CommonOrigin)
 struct PK : au::Kelvins { static constexpr auto origin() { return au::milli(au::kelvins)(273150); } };
 struct PL : decltype(au::Kelvins{} * au::mag<3>() / au::mag<7>()) { static constexpr auto origin() { return (au::kelvins / au::mag<20>())(5463); } };
+// a *named* unit of scale 1/1000 K whose origin (the Fahrenheit one) lies between those of equal-scale anonymous units
+struct FmK : decltype(au::Fahrenheit{} * au::mag<9>() / au::mag<5000>()) {};
 %(GEN2)s
 }
 namespace c10 {
@@ -129,11 +131,18 @@ def alphabet(tier):
                pt("PL", "gen::PL", Fr(3, 7), Fr(27315, 100), (Fr(1, 20), 5463)),
                pt("K*1000", "decltype(au::Kelvins{} * au::mag<1000>())", 1000, 0, None, named=False),
                pt("cC*100", "decltype(au::Centi<au::Celsius>{} * au::mag<100>())", 1, Fr(27315, 100), (CK, 27315), named=False)]
+    # equal-scale family (all 1/1000 K): anonymous scaled units with different scale factors and origins, and named units
+    # whose origins lie between them -- the ordering of point units must stay a strict total order across these kinds
+    cyc = [pt("R*9/5000", "decltype(au::Rankines{} * au::mag<9>() / au::mag<5000>())", Fr(1, 1000), 0, None, named=False),
+           pt("FmK", "gen::FmK", Fr(1, 1000), Fr(45967, 180), (CR, 45967)),
+           pt("C/1000", "decltype(au::Celsius{} / au::mag<1000>())", Fr(1, 1000), Fr(27315, 100), (CK, 27315), named=False),
+           pt("K/1000", "decltype(au::Kelvins{} / au::mag<1000>())", Fr(1, 1000), 0, None, named=False),
+           pt("F*9/5000", "decltype(au::Fahrenheit{} * au::mag<9>() / au::mag<5000>())", Fr(1, 1000), Fr(45967, 180), (CR, 45967), named=False)]
     if tier == "quick":
         main = lib[:6] + [lib[6], lib[8]] + gen[:6] + gen[8:]
     else:
         main = lib + gen
-    return main, lib[:6], special, GEN2
+    return main, lib[:6], special + cyc, GEN2
 
 
 def build_lists(tier, main, lib6, special, g2):
